@@ -94,6 +94,10 @@ def base_cfgs(rng: random.Random, per_op: int) -> List[Dict[str, Any]]:
         out.append({"op": "softmax", "mult": rng.choice([0.25, 3.0]), "batch": bt, "n": n, "dim": rng.choice([-1, 0]) if bt else -1})
         a_ = rng.choice([1, 2, 5])
         out.append({"op": "matmul", "batch": rng.choice([[], [2], [2, 3]]), "a": a_, "b": rng.choice([3, 4, 7]), "c": rng.choice([v for v in (1, 2, 6) if v != a_])})
+        # one operand broadcast over the other's batch dims (a shared weight matrix applied with matmul): whatever the unconstrained
+        # scales are there, a constraint must still collapse output and both gradient scales to the one rule value
+        bl, br = [([4], []), ([], [4]), ([2, 1], [3]), ([3], [2, 1])][_ % 4]
+        out.append({"op": "matmul", "batch": [], "batch_left": bl, "batch_right": br, "a": a_, "b": rng.choice([3, 4, 7]), "c": rng.choice([v for v in (1, 2, 6) if v != a_])})
         # discrete hyper-parameters that change which formula applies are ENUMERATED in every round (never sampled):
         # bias yes/no, groups 1/2 (3 in every third round), attention heads None/2
         for op in ("linear", "linear_readout"):
